@@ -33,6 +33,18 @@ def generate_cases(ck, tier, wd):
         # to /repo can cause - report as infrastructure, never as a property verdict
         raise vlib.Infra("MC_Eval did not model-check cleanly (rc=%s):\n%s" % (res.rc, res.out[-2500:]))
     ck.add_tlc("MC_Eval/" + cfg, res)
+    if ck.pid == "C01":
+        # the N-dimensional walk of ndsplineeval_core (odometer, carries, product tree) as a step machine: every coefficient
+        # read inside the array and the result equal to the block sum, for every small shape and center vector
+        r2 = vlib.run_tlc("MC_EvalCore", "MC_EvalCore.cfg", tag="mcevalcore", timeout=900)
+        if r2.rc != 0 or r2.violated:
+            raise vlib.Infra("MC_EvalCore did not model-check cleanly: %s\n%s" % (r2.violated, r2.out[-2000:]))
+        ck.add_tlc("MC_EvalCore (ndsplineeval_core walk, 1..4-D, orders 0..2, all centers)", r2)
+        # vacuity guard: the same invariant fails for a carry step that rewinds by the neighbouring dimension's order
+        r3 = vlib.run_tlc("MC_EvalCore", "MC_EvalCore_seeded.cfg", tag="mcevalcore2", timeout=900)
+        if r3.violated != "Inv":
+            raise vlib.Infra("MC_EvalCore_seeded.cfg no longer violates Inv: the invariant may be vacuous\n" + r3.out[-1500:])
+        ck.cov["evalcore_seeded_variant_rejected"] = True
     return path, n[0]
 
 
